@@ -564,11 +564,11 @@ def parseCls : Nat → List String → Option (Tr.Cls × List String)
     match toks with
     | "K" :: nb :: rest =>
       match parseBases fuel (nb.toNat?.getD 0) rest with
-      | some (bases, dc :: oc :: cc :: mc :: dt :: nf :: rest1) =>
+      | some (bases, dc :: oc :: cc :: mc :: dt :: ma :: nf :: rest1) =>
         match parseFields fuel (nf.toNat?.getD 0) rest1 with
         | some (fields, nv :: rest2) =>
           let k := nv.toNat?.getD 0
-          some (.mk bases (parseSM dc) (oc != "-") (parseSM cc) (parseSM mc) (parseSM dt) fields ((rest2.take k).map parseVD), rest2.drop k)
+          some (.mk bases (parseSM dc) (oc != "-") (parseSM cc) (parseSM mc) (parseSM dt) (ma != "-") fields ((rest2.take k).map parseVD), rest2.drop k)
         | _ => none
       | _ => none
     | _ => none
